@@ -235,16 +235,19 @@ def rk4Step (P : Prims K) (forward : State K → Deriv K) (dt : K) (s0 : State K
   for i in 0..2:
       _rk_perturb_state(A[i], qpos_t0, qvel_t0, act_t0) # _next_position(qpos_t0, d.qvel, scale=A[i]) -> d.qpos
                                                         # _next_velocity(qvel_t0, d.qacc, scale=A[i]) -> d.qvel
-                                                        # _next_activation(act_t0, d.act_dot, scale=A[i], limit=False) -> d.act
+                                                        # _next_velocity(act_t0, d.act_dot, scale=A[i]) -> d.act   (the SAME kernel
+                                                        #   as for qvel: plain act_t0 + A[i]*act_dot*dt for every dynamics type)
       forward(m, d)                                     # d.qacc, d.act_dot recomputed; d.time NOT changed
       _rk_accumulate(B[i+1])
   d.qpos, d.qvel, d.act = qpos_t0, qvel_t0, act_t0;  d.act_dot = act_dot_rk
   _advance(m, d, qacc_rk, qvel_rk)
   ```
-  The three kernels of `_rk_perturb_state` are parameters of the host model (`HostPrims`); their
+  The kernels of `_rk_perturb_state` / `_advance` are parameters of the host model (`HostPrims`); their
   kernel-level meaning is proved in `Props/C08.lean` (`next_position_spec`, `next_velocity_spec`,
-  `next_activation_spec`).  Note the launch order inside `_rk_perturb_state`: the position kernel runs
-  FIRST and therefore reads the velocity of the previous stage, as `F_{i-1}.vel` in C. -/
+  `next_activation_spec`), and the launch list of `_rk_perturb_state` transcribed here
+  (`_next_position`, `_next_velocity` on qvel, `_next_velocity` on act) is checked against the regenerated
+  host events in `Props/C08.rk_perturb_launches`.  Note the launch order inside `_rk_perturb_state`: the
+  position kernel runs FIRST and therefore reads the velocity of the previous stage, as `F_{i-1}.vel` in C. -/
 
 /-- the mutable `Data` fields the loop touches -/
 structure HostData (K : Type) where
@@ -256,7 +259,9 @@ structure HostData (K : Type) where
   act_dot : Int → K
 
 /-- kernel-level primitives as `rungekutta4`/`_advance` launch them:
-    `kPos qpos_in qvel_in scale dt`, `kVel qvel_in qacc_in scale dt`, `kAct act_in act_dot scale limit dt` -/
+    `kPos qpos_in qvel_in scale dt` (`_next_position`), `kVel qvel_in qacc_in scale dt` (`_next_velocity`; also
+    launched on `(act_t0, act_dot)` by the RK stages), `kAct act_in act_dot scale limit dt` (`_next_activation`;
+    launched by `_advance` only, with scale 1 and `limit = True`) -/
 structure HostPrims (K : Type) where
   kPos : (Int → K) → (Int → K) → K → K → (Int → K)
   kVel : (Int → K) → (Int → K) → K → K → (Int → K)
@@ -272,11 +277,13 @@ structure Acc (K : Type) where
 def hostAccumulate (b : K) (d : HostData K) (r : Acc K) : Acc K :=
   ⟨fun i => r.vel i + b * d.qvel i, fun i => r.acc i + b * d.qacc i, fun i => r.actdot i + b * d.act_dot i⟩
 
-/-- `_rk_perturb_state(m, d, a, qpos_t0, qvel_t0, act_t0)` (launch order: position, velocity, activation) -/
+/-- `_rk_perturb_state(m, d, a, qpos_t0, qvel_t0, act_t0)` (launch order: position, velocity, activation).
+    The activation launch is `_next_velocity` with inputs `[timestep, act_t0, d.act_dot, a]` and output
+    `d.act` (since fix a57be8a; `_next_activation(…, limit=False)` before), i.e. `kVel`, not `kAct`. -/
 def hostPerturb (H : HostPrims K) (dt a : K) (t0 : State K) (d : HostData K) : HostData K :=
   let qpos' := H.kPos t0.qpos d.qvel a dt
   let qvel' := H.kVel t0.qvel d.qacc a dt
-  let act' := H.kAct t0.act d.act_dot a false dt
+  let act' := H.kVel t0.act d.act_dot a dt
   { d with qpos := qpos', qvel := qvel', act := act' }
 
 /-- `forward(m, d)` as the loop sees it: recomputes `qacc`, `act_dot` from the current
